@@ -206,6 +206,27 @@ def flatStates (hw nan : α) : Pt α → List (FCmd α) → List (Seg α) × Boo
     let r := flatStates hw nan p rest
     (if pointEquals start p then r.1 else lineSeg hw nan start p :: r.1, true)
 
+
+/-! ## the whole path: `Stroke` / `Offset` run `offset()` once per subpath (path_stroke.go:643, 675) -/
+
+/-- one subpath as `offset()` sees it: its states and the `closed` flag -/
+abbrev SubPath (α : Type) := List (Seg α) × Bool
+
+/-- the requests of one subpath -/
+def subEvents (eqN : Pt α → Pt α → Bool) (strokeOpen : Bool) (s : SubPath α) : List (Ev α) :=
+  match offsetProto eqN s.1 s.2 strokeOpen with
+  | none => []
+  | some pr => pr.events
+
+/-- all requests made while stroking (`strokeOpen = true`) or offsetting (`false`) a path, in order -/
+def pathEvents (eqN : Pt α → Pt α → Bool) (subs : List (SubPath α)) (strokeOpen : Bool) : List (Ev α) :=
+  subs.flatMap (subEvents eqN strokeOpen)
+
+/-- number of contours appended to the result: an open stroked subpath gives one (rhs ++ cap ++ lhs
+reversed ++ cap), a closed one two (outer and inner), `Offset` takes one side, an empty state list none -/
+def pathContours (subs : List (SubPath α)) (stroke : Bool) : Nat :=
+  (subs.map fun s => if s.1.isEmpty then 0 else if stroke && s.2 then 2 else 1).sum
+
 end
 
 /-! ## exact verdicts on real Stroke / Offset outputs -/
